@@ -769,3 +769,216 @@ Proof.
   split; [exact (proj1 number_re_text)|]. split; [exact (proj1 suffix_re_text)|].
   split; [exact (proj1 move_re_text)|reflexivity].
 Qed.
+
+(* ------------------------------------------------------------------ *)
+(* re.split(\s+, s) = re_split_ws s                                     *)
+(* ------------------------------------------------------------------ *)
+Definition nospace (c : Z) : Prop := is_space c = false.
+Definition isspace (c : Z) : Prop := is_space c = true.
+
+Lemma split_ws_run w b :
+  w <> [] -> Forall isspace w -> head_is_space b = false -> split_ws (w ++ b) = ([], re_split_ws b).
+Proof.
+  intros Hne Hw Hb. induction Hw as [|c w Hc Hw IH]; [congruence|].
+  cbn [app split_ws]. unfold isspace in Hc. rewrite Hc. destruct w as [|c' w'].
+  - cbn [app]. rewrite Hb. unfold re_split_ws. destruct (split_ws b); reflexivity.
+  - rewrite IH by discriminate. inversion Hw as [|? ? Hc' _]; subst. unfold isspace in Hc'.
+    cbn [app head_is_space]. rewrite Hc'. reflexivity.
+Qed.
+
+Lemma re_split_ws_nospace s : Forall nospace s -> re_split_ws s = [s].
+Proof.
+  intros H. unfold re_split_ws. rewrite <- (app_nil_r s) at 1. rewrite (split_ws_token s [] H).
+  cbn [split_ws fst snd]. rewrite app_nil_r. reflexivity.
+Qed.
+
+Lemma re_split_ws_cut a w b :
+  Forall nospace a -> w <> [] -> Forall isspace w -> head_is_space b = false ->
+  re_split_ws (a ++ w ++ b) = a :: re_split_ws b.
+Proof.
+  intros Ha Hne Hw Hb. unfold re_split_ws at 1. rewrite (split_ws_token a (w ++ b) Ha).
+  rewrite (split_ws_run w b Hne Hw Hb). cbn [fst snd]. rewrite app_nil_r. reflexivity.
+Qed.
+
+Lemma ws_decomp s :
+  Forall nospace s \/
+  exists a w b, s = a ++ w ++ b /\ Forall nospace a /\ w <> [] /\ Forall isspace w /\ head_is_space b = false.
+Proof.
+  induction s as [|c r IH]; [left; constructor|].
+  destruct (is_space c) eqn:Ec.
+  - right. destruct IH as [Hr|(a & w & b & -> & Ha & Hne & Hw & Hb)].
+    + exists [], [c], r. split; [reflexivity|]. split; [constructor|]. split; [discriminate|].
+      split; [constructor; [exact Ec|constructor]|].
+      destruct Hr as [|x r' Hx _]; [reflexivity|exact Hx].
+    + destruct a as [|x a'].
+      * exists [], (c :: w), b. split; [reflexivity|]. split; [constructor|]. split; [discriminate|].
+        split; [constructor; [exact Ec|exact Hw]|exact Hb].
+      * exists [], [c], ((x :: a') ++ w ++ b). split; [reflexivity|]. split; [constructor|]. split; [discriminate|].
+        split; [constructor; [exact Ec|constructor]|].
+        inversion Ha as [|? ? Hx _]; subst. exact Hx.
+  - destruct IH as [Hr|(a & w & b & -> & Ha & Hne & Hw & Hb)].
+    + left. constructor; assumption.
+    + right. exists (c :: a), w, b. split; [reflexivity|]. split; [constructor; assumption|].
+      split; [exact Hne|]. split; [exact Hw|exact Hb].
+Qed.
+
+Lemma resplit_space_n n : forall s ctx, (length s <= n)%nat -> resplit E space_re ctx s (re_split_ws s).
+Proof.
+  induction n as [|n IH]; intros s ctx Hlen.
+  - destruct s; [|cbn [length] in Hlen; lia]. apply resplit_none. intros a mt b c E0 Hm.
+    apply space_re_match_partial in Hm. destruct Hm as (_ & Hne & _). destruct a, mt; try discriminate. congruence.
+  - destruct (ws_decomp s) as [Hs|(a & w & b & -> & Ha & Hne & Hw & Hb)].
+    + rewrite (re_split_ws_nospace s Hs). apply resplit_none. intros a mt b c -> Hm.
+      apply space_re_match_partial in Hm. destruct Hm as (_ & Hne & Hsp).
+      destruct mt as [|x mt']; [congruence|]. inversion Hsp as [|? ? Hx _]; subst.
+      rewrite Forall_forall in Hs. assert (Hin : In x (a ++ (x :: mt') ++ b)) by (apply in_or_app; right; left; reflexivity).
+      specialize (Hs x Hin). unfold nospace in Hs. congruence.
+    + rewrite (re_split_ws_cut a w b Ha Hne Hw Hb).
+      apply (resplit_hit E space_re ctx a w b []).
+      * exact Hne.
+      * apply space_re_match_partial. repeat split; assumption.
+      * intros a' mt' b' c' E0 Hm. apply space_re_match_partial in Hm. destruct Hm as (_ & Hne' & Hsp').
+        apply app_eq_app in E0. destruct E0 as (l & [[E1 E2]|[E1 E2]]).
+        -- destruct l as [|x l']; [rewrite app_nil_r in E1; subst; lia|]. exfalso.
+           destruct mt' as [|y mt'']; [congruence|]. cbn [app] in E2. injection E2 as <- _.
+           inversion Hsp' as [|? ? Hy _]; subst. rewrite Forall_forall in Ha.
+           assert (Hin : In y (a' ++ y :: l')) by (apply in_or_app; right; left; reflexivity).
+           specialize (Ha y Hin). unfold nospace in Ha. congruence.
+        -- rewrite E1, app_length. lia.
+      * intros mt' b' c' E0 Hm. apply space_re_match_partial in Hm. destruct Hm as (_ & _ & Hsp').
+        apply app_eq_app in E0. destruct E0 as (l & [[E1 E2]|[E1 E2]]).
+        -- rewrite E1, app_length. lia.
+        -- destruct l as [|x l']; [rewrite app_nil_r in E1; subst; lia|]. exfalso.
+           rewrite E2 in Hb. cbn [app head_is_space] in Hb. rewrite Forall_forall in Hsp'.
+           assert (Hin : In x mt') by (rewrite E1; apply in_or_app; right; left; reflexivity).
+           specialize (Hsp' x Hin). cbn beta in Hsp'. congruence.
+      * apply IH. rewrite !app_length in Hlen. destruct w; [congruence|]. cbn [length] in Hlen. lia.
+Qed.
+
+(* re.split(split regex, s) = re_split_ws s: cut at the leftmost, longest white-space runs *)
+Lemma re_split_ws_is_split s ctx : resplit E space_re ctx s (re_split_ws s).
+Proof. apply (resplit_space_n (length s)). lia. Qed.
+
+(* ------------------------------------------------------------------ *)
+(* re.findall(tag regex, head, re.M) = scan_tags head                   *)
+(* ------------------------------------------------------------------ *)
+Lemma try_tag_shape text k v n :
+  try_tag text = TagOk k v n ->
+  exists post, text = (91 :: k ++ 32 :: 34 :: v ++ [34; 93]) ++ post /\
+               n = length (91 :: k ++ 32 :: 34 :: v ++ [34; 93]) /\ at_eol post = true /\
+               k <> [] /\ Forall (fun c => word_class c = Some true) k /\ v <> [] /\ Forall (fun c => c <> 34) v.
+Proof.
+  destruct text as [|c0 r1]; cbn [try_tag]; [discriminate|].
+  destruct (Z.eqb_spec c0 91) as [->|]; cbn [negb]; [|discriminate].
+  destruct (take_word r1) as [[key r2]|] eqn:Ew; [|discriminate].
+  destruct key as [|k0 key']; cbn [nonempty negb]; [discriminate|].
+  destruct r2 as [|sp [|q r3]]; try discriminate.
+  destruct (Z.eqb_spec sp 32) as [->|]; cbn [andb negb]; [|discriminate].
+  destruct (Z.eqb_spec q 34) as [->|]; cbn [andb negb]; [|discriminate].
+  destruct (take_nonquote r3) as [val r4] eqn:Ev.
+  destruct r4 as [|q2 [|b r5]]; try discriminate.
+  destruct (Z.eqb_spec q2 34) as [->|]; cbn [andb negb]; [|discriminate].
+  destruct (Z.eqb_spec b 93) as [->|]; cbn [andb negb]; [|discriminate].
+  destruct (at_eol r5) eqn:Eeol; cbn [negb]; [|discriminate].
+  destruct val as [|v0 val']; cbn [nonempty]; [discriminate|].
+  intros H. injection H as <- <- <-.
+  apply take_word_spec in Ew. destruct Ew as [-> Hk].
+  apply take_nonquote_spec in Ev. destruct Ev as [-> Hv].
+  exists r5. split; [|split; [|split; [exact Eeol|split; [discriminate|split; [exact Hk|split; [discriminate|exact Hv]]]]]].
+  - cbn [app]. f_equal. f_equal. rewrite <- !app_assoc. cbn [app]. f_equal. f_equal. f_equal. f_equal.
+    rewrite <- app_assoc. reflexivity.
+  - cbn [length app]. rewrite !app_length. cbn [length]. rewrite app_length. cbn [length]. lia.
+Qed.
+
+Lemma line_start_snoc ctx c : line_start (ctx ++ [c]) <-> c = 10.
+Proof.
+  unfold line_start. split.
+  - intros [H|(p & H)]; [destruct ctx; discriminate|]. apply app_inj_tail in H. tauto.
+  - intros ->. right. exists ctx. reflexivity.
+Qed.
+
+Lemma app_same_length {A} (a a' b b' : list A) : a ++ b = a' ++ b' -> length a = length a' -> a = a'.
+Proof.
+  revert a'. induction a as [|x a IH]; intros [|y a'] E0 Hl; try discriminate; [reflexivity|].
+  cbn [app length] in *. injection E0 as -> E0. f_equal. apply IH; [exact E0|lia].
+Qed.
+
+Lemma tag_match_line_start ctx mt b cp : matches E tag_re ctx mt b cp -> line_start ctx.
+Proof.
+  unfold tag_re. intros H. apply seq_inv in H. destruct H as (s0 & t & c0 & k & _ & _ & H0 & _).
+  apply bolm_inv in H0. tauto.
+Qed.
+
+(* pushing one character at which no match starts in front of a finished findall *)
+Lemma refindall2_cons r ctx c s out :
+  (forall mt b cp, c :: s = mt ++ b -> ~ matches E r ctx mt b cp) ->
+  refindall2 E r (ctx ++ [c]) s out -> refindall2 E r ctx (c :: s) out.
+Proof.
+  intros Hstart H. inversion H as [ctx0 s0 Hnone|ctx0 a mt b g1 g2 out' Hne Hm Hleft Huniq Hrest]; subst.
+  - apply refindall2_none. intros a mt b cp E0 Hm. destruct a as [|x a'].
+    + rewrite app_nil_r in Hm. exact (Hstart mt b cp E0 Hm).
+    + cbn [app] in E0. injection E0 as <- ->. apply (Hnone a' mt b cp eq_refl). rewrite <- app_assoc. exact Hm.
+  - change (c :: a ++ mt ++ b) with ((c :: a) ++ mt ++ b).
+    apply (refindall2_hit E r ctx (c :: a) mt b g1 g2 out' Hne).
+    + rewrite <- app_assoc in Hm. exact Hm.
+    + intros a' mt' b' c' E0 Hm'. destruct a' as [|x a''].
+      * exfalso. rewrite app_nil_r in Hm'. exact (Hstart mt' b' c' E0 Hm').
+      * cbn [app] in E0. injection E0 as <- E0. cbn [length]. apply le_n_S.
+        apply (Hleft a'' mt' b' c' E0). rewrite <- app_assoc. exact Hm'.
+    + intros mt' b' c' E0 Hm'. apply (Huniq mt' b' c' E0). rewrite <- app_assoc. exact Hm'.
+    + rewrite <- app_assoc in Hrest. exact Hrest.
+Qed.
+
+Lemma scan_tags_is_findall_n n : forall s ctx bol l,
+  (length s <= n)%nat -> (bol = true <-> line_start ctx) -> scan_tags s bol 0 = Some l ->
+  refindall2 E tag_re ctx s l.
+Proof.
+  induction n as [|n IH]; intros s ctx bol l Hlen Hbol Hscan.
+  - destruct s; [|cbn [length] in Hlen; lia]. cbn in Hscan. injection Hscan as <-.
+    apply refindall2_none. intros a mt b c E0 Hm. apply matches_try_tag in Hm. destruct Hm as (k & v & _ & Ht).
+    destruct a, mt; try discriminate. destruct b; [|discriminate]. cbn in Ht. discriminate.
+  - destruct s as [|c r]; [cbn in Hscan; injection Hscan as <-; apply (IH [] ctx bol); [cbn; lia|exact Hbol|reflexivity]|].
+    cbn [length] in Hlen. assert (Hr : (length r <= n)%nat) by lia.
+    assert (Hnext : forall l', scan_tags r (c =? 10) 0 = Some l' ->
+                               (forall mt b cp, c :: r = mt ++ b -> ~ matches E tag_re ctx mt b cp) ->
+                               refindall2 E tag_re ctx (c :: r) l').
+    { intros l' Hs Hno. apply refindall2_cons; [exact Hno|]. apply (IH r (ctx ++ [c]) (c =? 10) l' Hr); [|exact Hs].
+      rewrite line_start_snoc. apply Z.eqb_eq. }
+    cbn [scan_tags] in Hscan. destruct bol.
+    + assert (Hls : line_start ctx) by (apply Hbol; reflexivity).
+      destruct (try_tag (c :: r)) as [k v m| |] eqn:Etry; [| |discriminate].
+      * destruct (try_tag_shape _ _ _ _ Etry) as (post & E0 & -> & Heol & Hk0 & Hk & Hv0 & Hv).
+        set (body := k ++ 32 :: 34 :: v ++ [34; 93]) in *.
+        cbn [app] in E0. injection E0 as -> ->. cbn [length] in Hscan.
+        replace (S (length body) - 1)%nat with (length body) in Hscan by lia.
+        rewrite scan_skip in Hscan by (unfold body; destruct k; discriminate).
+        destruct (scan_tags post false 0) as [l'|] eqn:Epost; [|discriminate]. injection Hscan as <-.
+        change (91 :: body ++ post) with ([] ++ (91 :: body) ++ post).
+        apply (refindall2_hit E tag_re ctx [] (91 :: body) post k v l').
+        -- discriminate.
+        -- rewrite app_nil_r. unfold body. apply tag_re_intro; assumption.
+        -- intros a' mt' b' c' _ _. cbn [length]. lia.
+        -- intros mt' b' c' E0 Hm. rewrite app_nil_r in Hm. apply matches_try_tag in Hm.
+           destruct Hm as (k' & v' & _ & Ht). rewrite <- E0 in Ht. cbn [app] in Ht. rewrite Etry in Ht.
+           injection Ht as _ _ Hl. apply (app_same_length _ _ b' post); [symmetry; exact E0|]. cbn [length]. lia.
+        -- apply (IH post (ctx ++ [] ++ 91 :: body) false l'); [|split; [discriminate|]|exact Epost].
+           ++ rewrite app_length in Hr. lia.
+           ++ intros [H|(p & H)]; [destruct ctx; discriminate|]. exfalso.
+              unfold body in H. cbn [app] in H.
+              replace (ctx ++ 91 :: k ++ 32 :: 34 :: v ++ [34; 93]) with ((ctx ++ 91 :: k ++ 32 :: 34 :: v ++ [34]) ++ [93]) in H
+                by (rewrite <- !app_assoc; cbn [app]; rewrite <- !app_assoc; cbn [app]; rewrite <- app_assoc; reflexivity).
+              apply app_inj_tail in H. destruct H as [_ H]. discriminate.
+      * apply Hnext; [exact Hscan|]. intros mt b cp E0 Hm. apply matches_try_tag in Hm.
+        destruct Hm as (k & v & _ & Ht). rewrite <- E0, Etry in Ht. discriminate.
+    + apply Hnext; [exact Hscan|]. intros mt b cp _ Hm. apply tag_match_line_start in Hm.
+      apply Hbol in Hm. discriminate.
+Qed.
+
+(* re.findall(tag regex, head, re.M) = scan_tags head true 0 wherever the model's \w table applies
+   (scan_tags answers None when it meets a code point of unknown class in key position or a tag line with an
+   empty value): leftmost, non-overlapping matches, each the only one at its start *)
+Lemma scan_tags_is_findall head l : scan_tags head true 0 = Some l -> refindall2 E tag_re [] head l.
+Proof.
+  intros H. apply (scan_tags_is_findall_n (length head) head [] true l); [lia| |exact H].
+  split; [intros _; left; reflexivity|reflexivity].
+Qed.
